@@ -39,11 +39,40 @@ EmitOne(st, tr) ==
   CSVWrite("%1$s", <<ToJson([toks |-> <<Raw("")>> \o Tight(st.t) \o <<Raw(tr)>>, wants |-> <<st.a>>, n |-> 1, bad |-> FALSE,
                               cm |-> tr \in {" -- end", " /* end */"}])>>, IOEnv.CASE_FILE)
 
+\* long queries: n statements of one kind in one text (n around 100 and 128: counters and small buffers), each with a
+\* call without arguments / a parenthesis / nothing special: what one statement leaves behind must not reach the next
+NowCond == BinE(">", E(Ref("time"), <<Id("time")>>, FALSE, TRUE), E(Call("now", <<>>), <<Id("now"), PT("("), PT(")")>>, TRUE, TRUE))
+LongPool == <<
+  [a |-> SimpleSel("v", Meas("", "", "m")) @@ WhereOf(NowCond).a, t |-> <<Kw("SELECT"), Id("v"), Kw("FROM"), Id("m")>> \o WhereOf(NowCond).t],
+  [a |-> [k |-> "SelectStatement", Fields |-> <<Field(Paren(Ref("v")))>>, Sources |-> <<Meas("", "", "m")>>, IsRawQuery |-> TRUE],
+   t |-> <<Kw("SELECT"), P("("), IdT("v"), PT(")"), Kw("FROM"), Id("m")>>],
+  [a |-> [k |-> "ShowDatabasesStatement"], t |-> <<Kw("SHOW"), Kw("DATABASES")>>] >>
+LongSizes == {99, 100, 101, 102, 128, 129}
+RECURSIVE Rep(_, _, _)
+Rep(st, n, sep) == IF n = 1 THEN Tight(st.t) ELSE Tight(st.t) \o <<Raw(sep)>> \o Rep(st, n - 1, sep)
+EmitLong(st, n, sep) ==
+  CSVWrite("%1$s", <<ToJson([toks |-> <<Raw("")>> \o Rep(st, n, sep), wants |-> [i \in 1..n |-> st.a], n |-> n, bad |-> FALSE, cm |-> FALSE])>>, IOEnv.CASE_FILE)
+\* ... and ONE statement with n calls without arguments in its condition ( time > now() AND time > now() AND ... ) or n
+\* parenthesised fields: nothing is nested more than once
+RECURSIVE AndChain(_), AndToks(_)
+AndChain(n) == IF n = 1 THEN NowCond.a ELSE Bin("AND", AndChain(n - 1), NowCond.a)
+AndToks(n) == IF n = 1 THEN NowCond.t ELSE AndToks(n - 1) \o <<Kw("AND")>> \o NowCond.t
+LongCond(n) == [a |-> SimpleSel("v", Meas("", "", "m")) @@ [Condition |-> AndChain(n)],
+                t |-> <<Kw("SELECT"), Id("v"), Kw("FROM"), Id("m"), Kw("WHERE")>> \o AndToks(n)]
+RECURSIVE ParFields(_)
+ParFields(n) == IF n = 0 THEN <<>> ELSE ParFields(n - 1) \o (IF n = 1 THEN <<>> ELSE <<PT(",")>>) \o <<P("("), IdT("v"), PT(")")>>
+LongFields(n) == [a |-> [k |-> "SelectStatement", Fields |-> [i \in 1..n |-> Field(Paren(Ref("v")))], Sources |-> <<Meas("", "", "m")>>, IsRawQuery |-> TRUE],
+                  t |-> <<Kw("SELECT")>> \o ParFields(n) \o <<Kw("FROM"), Id("m")>>]
+LongStep == /\ ~done /\ kind = "kill"          \* once per run
+            /\ \A i \in 1..Len(LongPool) : \A n \in LongSizes : \A sep \in {";", " ;\n"} : EmitLong(LongPool[i], n, sep)
+            /\ \A n \in LongSizes : EmitLong(LongCond(n), 1, ";") /\ EmitLong(LongFields(n), 1, ";")
+
 Init == kind \in KindsUsed /\ sub \in Subs(kind) /\ done = FALSE
 Step == /\ ~done
         /\ \A st \in Stmts(kind, sub) :
              /\ \A tr \in Trails : EmitOne(st, tr)
              /\ \A sp \in Seps : \A tr \in {"", ";"} : Emit(st, Other, sp, tr) /\ Emit(Other, st, sp, tr)
+        /\ (IF kind = "kill" THEN LongStep ELSE TRUE)
         /\ done' = TRUE /\ UNCHANGED <<kind, sub>>
 Next == Step
 Spec == Init /\ [][Next]_vars
